@@ -23,8 +23,12 @@ func (p *PIDZero) startShutdownManager() {
 						return
 					case <-triggerChan:
 						p.logger.Info("Shutdown requested by runnable", "runnable", r)
-						p.Shutdown() // Trigger supervisor shutdown
-						return       // Exit this goroutine after triggering shutdown
+						// Shutdown() waits for the supervisor's WaitGroup, which contains the
+						// shutdown manager, which waits for this listener: calling it inline
+						// could only finish by running into the shutdown timeout. Run it on its
+						// own goroutine and let this listener exit.
+						go p.Shutdown() // Trigger supervisor shutdown
+						return          // Exit this goroutine after triggering shutdown
 					}
 				}
 			}(r, sdSender) // Pass both variables
